@@ -336,3 +336,95 @@ func listOrderUnderPrepend(c *core.Ctx, r *core.Rule) {
 	}
 	c.Counts["list_prepend_loops"] = n
 }
+
+// lengthBeforePadding (R6.7): a length field that a serializer derives from
+// len(b.Bytes()) is computed before the serializer appends padding behind the
+// payload — otherwise the field counts the padding and decoding no longer
+// strips it.
+func lengthBeforePadding(c *core.Ctx, r *core.Rule) {
+	p := c.P
+	n := 0
+	for _, fn := range p.Roots().Ser {
+		if fn.Name() != "SerializeTo" || len(fn.Blocks) == 0 {
+			continue
+		}
+		var appends []ssa.Instruction
+		core.Instrs(fn, func(ins ssa.Instruction) {
+			if cc := core.CallCommonOf(ins); cc != nil && cc.IsInvoke() && cc.Method.Name() == "AppendBytes" && core.NamedIs(cc.Value.Type(), "SerializeBuffer") {
+				appends = append(appends, ins)
+			}
+		})
+		if len(appends) == 0 {
+			continue
+		}
+		// len(b.Bytes()) values that reach a store into a receiver field
+		flowsToField := func(v ssa.Value) (ssa.Instruction, bool) {
+			seen := map[ssa.Value]bool{}
+			var walk func(v ssa.Value, d int) (ssa.Instruction, bool)
+			walk = func(v ssa.Value, d int) (ssa.Instruction, bool) {
+				if d > 6 || seen[v] || v.Referrers() == nil {
+					return nil, false
+				}
+				seen[v] = true
+				for _, ref := range *v.Referrers() {
+					switch x := ref.(type) {
+					case *ssa.Store:
+						if x.Val == v {
+							if pth, ok := core.RecvFieldAddrPath(fn, x.Addr); ok && pth != "" {
+								return x, true
+							}
+						}
+					case *ssa.Convert:
+						if i, ok := walk(x, d+1); ok {
+							return i, true
+						}
+					case *ssa.BinOp:
+						if x.Op == token.ADD || x.Op == token.SUB {
+							if i, ok := walk(x, d+1); ok {
+								return i, true
+							}
+						}
+					case *ssa.Phi:
+						if i, ok := walk(x, d+1); ok {
+							return i, true
+						}
+					}
+				}
+				return nil, false
+			}
+			return walk(v, 0)
+		}
+		k := 0
+		core.Instrs(fn, func(ins ssa.Instruction) {
+			call, ok := ins.(*ssa.Call)
+			if !ok || !call.Call.IsInvoke() || call.Call.Method.Name() != "Bytes" || !core.NamedIs(call.Call.Value.Type(), "SerializeBuffer") {
+				return
+			}
+			// len(result) flowing into a receiver field
+			var st ssa.Instruction
+			for _, ref := range *call.Referrers() {
+				if lc, ok := ref.(*ssa.Call); ok {
+					if nm, _ := core.BuiltinCall(lc); nm == "len" {
+						if s, ok := flowsToField(lc); ok {
+							st = s
+						}
+					}
+				}
+			}
+			if st == nil {
+				return
+			}
+			n++
+			k++
+			key := fmt.Sprintf("%s/length-from-bytes#%d", core.FnKey(fn), k)
+			var before ssa.Instruction
+			for _, a := range appends {
+				if core.ForwardSearch(fn, a, func(i ssa.Instruction) bool { return i == ins }, nil) != nil {
+					before = a
+				}
+			}
+			r.Check(before == nil, key, p.InstrPos(ins), "the length is taken before any padding is appended", "the length field stored at "+p.InstrPos(st)+" is computed from len(b.Bytes()) after padding was appended behind the payload: it counts the padding, so decoding the written bytes no longer strips it (payloads grow and an extra layer of zeros appears)")
+		})
+	}
+	c.Counts["length_from_bytes_sites"] = n
+}
